@@ -185,6 +185,10 @@ struct StringReader {
   const char* data; size_t size; const std::string& name; int flags;
   template <class H> void operator()(H& h) const { mp::ReadNLString(mp::NLStringRef(data, size), h, name, flags); }
 };
+struct StdStringReader {
+  const std::string& bytes; const std::string& name; int flags;
+  template <class H> void operator()(H& h) const { mp::ReadNLString(bytes, h, name, flags); }
+};
 struct SimFileReader {
   const std::string& path; int flags;
   template <class H> void operator()(H& h) const {
@@ -200,6 +204,7 @@ struct FileReader {
 }  // namespace
 
 ReadOutcome read_nl_string(const std::string& bytes, const std::string& name, const ReadOpts& o) {
+  if (o.std_string) { StdStringReader r{bytes, name, o.flags}; return with_handler(o, r); }
   // The bytes and their terminating NUL are placed so that the NUL is the last byte before an inaccessible
   // page: any read past it faults at once and in every process alike.  (An exact-size malloc block relies on
   // ASan's redzone check, which GCC elides for some loads, and what lies behind the block then depends on the
